@@ -392,6 +392,27 @@ func sortedJoin(l []string) string {
 
 // NegativeFieldCases are programs whose field settings cannot take effect: generation must fail.
 func NegativeFieldCases() []*Case {
+	foreign := func(name, neg, conv string) *Case {
+		c := RawCase("n_"+name, map[string]string{
+			"other/types.go": "package other\n\ntype Out struct{ A int; secret string }\n",
+			"p/input.go":     "package p\n\nimport \"vcase/n_" + name + "/other\"\n\ntype In struct{ A int; S string }\nfunc F(s string) string { return s }\nfunc G() string { return \"g\" }\n\n" + conv,
+		}, nil, []string{"./p"})
+		c.Feature("negative", neg)
+		c.Note = conv
+		return c
+	}
+	extra := []*Case{
+		foreign("map_func_unexported_target", "map|FUNC onto an unexported field of a struct in another package",
+			"// goverter:converter\ntype Converter interface {\n\t// goverter:map S secret | F\n\tConvert(source In) other.Out\n}\n"),
+		foreign("map_nosource_func_unexported_target", "map TARGET|FUNC (no source) onto an unexported field of a struct in another package",
+			"// goverter:converter\ntype Converter interface {\n\t// goverter:map secret | G\n\tConvert(source In) other.Out\n}\n"),
+		foreign("map_unexported_target", "map onto an unexported field of a struct in another package",
+			"// goverter:converter\ntype Converter interface {\n\t// goverter:map S secret\n\tConvert(source In) other.Out\n}\n"),
+	}
+	return append(negativeFieldCasesLocal(), extra...)
+}
+
+func negativeFieldCasesLocal() []*Case {
 	mk := func(name, neg, types, conv string) *Case {
 		c := RawCase("n_"+name, map[string]string{"p/input.go": "package p\n\n" + types + "\n" + conv}, nil, []string{"./p"})
 		c.Feature("negative", neg)
@@ -435,6 +456,11 @@ func NegativeFieldCases() []*Case {
 			"type In struct{ A int; H Hold }\ntype Hold struct{ B int }\ntype Out struct{ A int; B int }\n", "// goverter:converter\n// goverter:ignoreMissing\ntype Converter interface {\n\t// goverter:autoMap H\n\tConvertPtr(source *In) *Out\n\tConvertList(source []In) []Out\n}\n"),
 		mk("overlap_matchignorecase", "matchIgnoreCase on the pointer variant while the struct variant is what gets used",
 			"type In struct{ A int; BVAL int }\ntype Out struct{ A int; Bval int }\n", "// goverter:converter\n// goverter:ignoreMissing\ntype Converter interface {\n\t// goverter:matchIgnoreCase\n\tConvertPtr(source *In) *Out\n\tConvertList(source []In) []Out\n}\n"),
+		mk("ptrptr_target", "field settings on a method whose target is a pointer to a pointer to a struct",
+			"type In struct{ A int; S string }\ntype Out struct{ A int; S string }\n", "// goverter:converter\ntype Converter interface {\n\t// goverter:ignore S\n\tConvert(source In) **Out\n}\n"),
+		mk("ptrptr_target_unknown", "unknown field in settings on a **struct target",
+			"type In struct{ A int }\ntype Out struct{ A int }\n", "// goverter:converter\ntype Converter interface {\n\t// goverter:map A Nope\n\tConvert(source In) **Out\n}\n"),
+		mk("ignore_misspelt", "ignore of a misspelt field next to valid settings", base, iface("map A A", "ignore Bb")),
 		mk("unexported_source_method", "unexported source method read from another package",
 			"type In struct{ A int }\nfunc (In) name() string { return \"x\" }\ntype Out struct{ A int; Name string }\n", iface("map name Name")),
 		mk("automap_ambiguous", "same field name reachable through two autoMap paths",
